@@ -301,3 +301,8 @@ def _and_shape(body, op):
 
 def _names_deep(body, g):
   return g.slice().var_names()
+
+
+# sensitivity pack (thorough tier): each seeded edit must be reported by the named rule instance
+MUTANTS = [{'name': 'seeded-C05-a', 'patch': 'C05-a/patch.diff', 'expect': ('R5.3', 'index_utxo_entries', 'per-block row')},
+           {'name': 'seeded-C05-b', 'patch': 'C05-b/patch.diff', 'expect': ('R5.5', 'jubilee_height', 'Testnet4')}]
